@@ -50,6 +50,7 @@ def configs(tier):
                     continue
                 out.append(("pbar", kind, n, simple))
     out.append(("prange", 2 if q else 3))
+    out.append(("prange_args", 0))
     for n in (0, 1, 2):
         out.append(("pmap", n))
     out.append(("format_meter",))
@@ -239,6 +240,30 @@ def harness(cx, cfg):
         if len(flat) == n:
             for a, b in zip(flat, cells):
                 cx.check_eq("splitarray: concatenation of the chunks is the input, in order", a, b)
+        return
+    if what == "prange_args":
+        # every way of calling range: prange(stop), prange(start, stop), prange(start, stop, step), the bounds
+        # chosen by the solver among small integers (0 included: an explicit stop of 0 is a stop)
+        class _Clock(object):
+            """a concrete clock: the timing behaviour is decided in the prange / pbar configurations"""
+            t = 0.0
+
+            def time(self):
+                self.t += 1.0
+                return self.t
+        pb = loader.Loader(stubs={"time": _Clock(), "concurrent.futures": _FuturesStub()}).get("esutil.pbar")
+        f = _File()
+        vals = (-3, -1, 0, 1, 2, 4)
+        form = cx.choice("form", 3)
+        a = vals[cx.choice("a", len(vals))]
+        args = (a,)
+        if form >= 1:
+            args = (a, vals[cx.choice("b", len(vals))])
+        if form == 2:
+            args = args + ((-2, -1, 1, 2)[cx.choice("step", 4)],)
+        kw = {"simple": cx.flag("simple"), "file": f}
+        got = list(pb.prange(*args, **kw))
+        cx.check("prange(*args) yields exactly range(*args)", got == list(range(*args)), detail=repr(args))
         return
     if what in ("pbar", "prange"):
         pb = ld.get("esutil.pbar")
@@ -458,6 +483,20 @@ def replay(cand):
         got = [c.tolist() for c in ch]
         if got != want:
             return {"reproduced": True, "key": "splitarray-wrong", "what": "splitarray(%d, %r) -> %r" % (nper, a.tolist(), got)}
+        return no
+    if what == "prange_args":
+        import io as _io
+        import esutil.pbar as pb
+        vals = (-3, -1, 0, 1, 2, 4)
+        for form in range(3):
+            for a in vals:
+                for b in (vals if form >= 1 else (None,)):
+                    for st in ((-2, -1, 1, 2) if form == 2 else (None,)):
+                        args = (a,) if form == 0 else ((a, b) if form == 1 else (a, b, st))
+                        for simple in (True, False):
+                            got = list(pb.prange(*args, simple=simple, file=_io.StringIO()))
+                            if got != list(range(*args)):
+                                return {"reproduced": True, "key": "prange:args", "what": "prange%r yields %r, range%r is %r" % (args, got, args, list(range(*args)))}
         return no
     if what in ("pbar", "prange", "pmap", "format_meter", "format_interval"):
         import time as _time
